@@ -218,6 +218,7 @@ def set_builder_mem(bound, x, cond, bt):
         y in result := c(inv(y)) and y == f(inv(y));   axiom: forall x. c(x) => c(inv(f(x))) and f(inv(f(x))) == f(x)
     Structurally identical comprehensions (program or specification side) share inv, hence yield the same term."""
     y = z3.Const("y!sb", bt.sort())
+    cond, bt = beta(cond), beta(bt)
     if z3.eq(bt, x):
         return z3.Lambda([y], z3.substitute(cond, (x, y)))
     fv = [v for v in bound if not z3.eq(v, x) and (_occurs(v, cond) or _occurs(v, bt))]
@@ -231,11 +232,51 @@ def set_builder_mem(bound, x, cond, bt):
         inv = z3.Function(name, *[c.sort() for c in canon], bt.sort(), x.sort())
         at = lambda e_, t_: z3.substitute(e_, (xa, t_))
         w = inv(*canon, b_c)
-        LIFTED[name] = z3.ForAll(canon + [xa], z3.Implies(c_c, z3.And(at(c_c, w), at(b_c, w) == b_c)), patterns=[b_c])
+        # triggers: the image f(x), or an uninterpreted function applied directly to x inside the condition
+        # (e.g. keyof(x) when the source is the value set of a dict) -- but only when no other variable is lost
+        pats = [b_c]
+        if not canon:
+            pats += _direct_apps(xa, c_c)[:2]
+        LIFTED[name] = z3.ForAll(canon + [xa], z3.Implies(c_c, z3.And(at(c_c, w), at(b_c, w) == b_c)), patterns=pats)
         _inv_keys[key] = inv
     inv = _inv_keys[key]
     w = inv(*fv, y)
     return z3.Lambda([y], z3.And(z3.substitute(cond, (x, w)), y == z3.substitute(bt, (x, w))))
+
+
+def beta(e):
+    """beta-reduce select(Lambda, t) outside quantifiers (so that triggers can be read off the reduced term)"""
+    cache = {}
+    def go(x):
+        k = x.get_id()
+        if k in cache: return cache[k]
+        r = x
+        if z3.is_app(x) and x.num_args() > 0:
+            ch = [go(c) for c in x.children()]
+            if x.decl().kind() == z3.Z3_OP_SELECT and z3.is_quantifier(ch[0]) and ch[0].is_lambda() and ch[0].num_vars() == len(ch) - 1:
+                r = go(z3.substitute_vars(ch[0].body(), *reversed(ch[1:])))
+            elif any(not z3.eq(a, b) for a, b in zip(ch, x.children())):
+                r = x.decl()(*ch)
+        cache[k] = r
+        return r
+    return go(e)
+
+
+def _direct_apps(v, e):
+    """uninterpreted-function applications f(v) occurring in e"""
+    out, todo, seen = [], [e], set()
+    while todo:
+        x = todo.pop()
+        if x.get_id() in seen: continue
+        seen.add(x.get_id())
+        if z3.is_quantifier(x):
+            continue
+        if z3.is_app(x):
+            if (x.decl().kind() == z3.Z3_OP_UNINTERPRETED and x.num_args() == 1 and z3.eq(x.arg(0), v)
+                    and all(not z3.eq(x, o) for o in out)):
+                out.append(x)
+            todo.extend(x.children())
+    return out
 
 
 def _occurs(v, e):
